@@ -94,6 +94,38 @@ func init() {
 			c.set(c.Argv[1], &ne)
 			return Int(int64(len(ne.s)))
 		}},
+		"GETRANGE": {4, false, func(c *Ctx) Reply {
+			c.track(c.Argv[1])
+			e := c.get(c.Argv[1])
+			if e == nil {
+				return Bulk("")
+			}
+			if e.kind != 's' {
+				return Err(wrongType)
+			}
+			a, err1 := strconv.Atoi(c.Argv[2])
+			b, err2 := strconv.Atoi(c.Argv[3])
+			if err1 != nil || err2 != nil {
+				return Err("ERR value is not an integer or out of range")
+			}
+			n := len(e.s)
+			if a < 0 {
+				a += n
+			}
+			if b < 0 {
+				b += n
+			}
+			if a < 0 {
+				a = 0
+			}
+			if b >= n {
+				b = n - 1
+			}
+			if a > b || n == 0 {
+				return Bulk("")
+			}
+			return Bulk(e.s[a : b+1])
+		}},
 		"STRLEN": {2, false, func(c *Ctx) Reply {
 			c.track(c.Argv[1])
 			e := c.get(c.Argv[1])
